@@ -231,30 +231,31 @@ def _ref_chunked(s, pos):
 
 def ref_http(s):
     """what an RFC 9112 server that answers each request with <Rn> must do with the stream `s`:
-    returns (requests, bytes written, closed)"""
+    returns (requests, bytes written, closed, end offset of each request)"""
     reqs = []
+    ends = []
     out = ""
     pos = 0
     while True:
         r = _line(s, pos)
         if r is None:
-            return reqs, out, False
+            return reqs, out, False, ends
         line, pos = r
         if line == "":                   # RFC 9112 2.2: one empty line before the request-line is ignored
             r = _line(s, pos)
             if r is None:
-                return reqs, out, False
+                return reqs, out, False, ends
             line, pos = r
         rl = ref_request_line(line)
         if rl is None:
-            return reqs, out + BAD, True
+            return reqs, out + BAD, True, ends
         fr = {"cl": [], "te": []}
         hs = []
         cur = None
         while True:
             r = _line(s, pos)
             if r is None:
-                return reqs, out, False
+                return reqs, out, False, ends
             line, pos = r
             if line != "" and (line[0] == " " or line[0] == "\t"):
                 j = 0
@@ -265,7 +266,7 @@ def ref_http(s):
             if cur is not None:
                 f = _ref_field(cur, fr)
                 if f is None or _ref_framing(fr) is None:
-                    return reqs, out + BAD, True
+                    return reqs, out + BAD, True, ends
                 hs.append(f)
             if line == "":
                 break
@@ -281,44 +282,58 @@ def ref_http(s):
             body = ""
         elif kind == "cl":
             if len(s) - pos < n:
-                return reqs, out, False
+                return reqs, out, False, ends
             body = s[pos:pos + n]
             pos += n
         else:
             r = _ref_chunked(s, pos)
             if r is None:
-                return reqs, out, False
+                return reqs, out, False, ends
             if r == "bad":
-                return reqs, out + BAD, True
+                return reqs, out + BAD, True, ends
             body, pos = r
         reqs.append((rl[0], rl[1], rl[2], hs, body))
+        ends.append(pos)
         out = out + "<R%d>" % len(reqs)
         if not persistent:
-            return reqs, out, True
+            return reqs, out, True, ends
 
 
-def _agree(stream):
-    """run the channel on the stream (one delivery) and compare with the reference"""
-    exp_reqs, exp_out, exp_closed = ref_http(stream)
+def _req_eq(g, e):
+    if g[0] != e[0] or g[1] != e[1] or g[2] != e[2] or g[4] != e[4]:
+        return False
+    # headers: the reference lists one (name, value) per field line; Headers groups by name
+    flat = []
+    for k, vs in g[3]:
+        for v in vs:
+            flat.append((ascii_lower(k), ows_strip(v)))     # modulo OWS (a replaced leading CR stays as SP)
+    es = list(e[3])
+    if len(flat) != len(es):
+        return False
+    for item in flat:
+        if item not in es:
+            return False
+    return True
+
+
+def _agree(stream, prefix=True):
+    """run the channel on the stream (one delivery) and compare with the reference; then the same for
+    the stream cut right after the first request (the request must be handed over as soon as its
+    last byte is there)"""
+    exp_reqs, exp_out, exp_closed, ends = ref_http(stream)
     got_reqs, got_out, got_closed, _ = run_channel([stream])
     api.obs((got_reqs, got_out, got_closed))
     cover()
     if got_closed != exp_closed or got_out != exp_out or len(got_reqs) != len(exp_reqs):
         return False
     for g, e in zip(got_reqs, exp_reqs):
-        if g[0] != e[0] or g[1] != e[1] or g[2] != e[2] or g[4] != e[4] or len(g[3]) != len(e[3]):
+        if not _req_eq(g, e):
             return False
-        # headers: the reference lists one (name, value) per field line; Headers groups by name
-        flat = []
-        for k, vs in g[3]:
-            for v in vs:
-                flat.append((ascii_lower(k), ows_strip(v)))     # modulo OWS (a replaced leading CR stays as SP)
-        es = list(e[3])
-        if len(flat) != len(es):
+    if prefix and len(ends) > 0 and ends[0] < len(stream):
+        got_reqs, got_out, got_closed, _ = run_channel([stream[:ends[0]]])
+        api.obs((len(got_reqs), got_out, got_closed))
+        if len(got_reqs) != 1 or not _req_eq(got_reqs[0], exp_reqs[0]) or got_out != "<R1>" or got_closed:
             return False
-        for item in flat:
-            if item not in es:
-                return False
     return True
 
 
@@ -480,9 +495,14 @@ def framing(combo: int, cl: str, x: str, bd: str) -> bool:
     pre: not lbytes._char_in(cl[0], "3456789abcdefABCDEF")
     post: _
     """
-    cl = fix(cl, 2)
-    if combo != 0 and combo != 7:
-        cl = _digit_cases(cl, _DIGITS)      # (unused in combinations 0 and 7)
+    if combo == 0 or combo == 7:
+        cl = "21"                          # unused
+    elif combo == 3 or combo == 15:
+        cl = "21"                          # these combinations vary x; the length value is fixed
+    elif combo == 9:
+        cl = "13"
+    else:
+        cl = _digit_cases(fix(cl, 2), _DIGITS)
     x = fix(x, 1)
     if combo == 3:
         x = _digit_cases(x, _DIGITS)
@@ -518,7 +538,8 @@ HARNESSES = [
       timeout={"quick": 60, "thorough": 900}),
     H(k_decint, shards=lambda tier: [("len(s) == %d" % a,) for a in range(BOUNDS[tier]["di"] + 1)],
       timeout={"quick": 60, "thorough": 900}),
-    H(framing, shards=[("combo == %d" % c,) for c in range(NCOMBO)], timeout={"quick": 240, "thorough": 900}),
+    H(framing, shards=[("combo == %d" % c,) for c in range(NCOMBO) if c != 12] +
+      [("combo == 12", "x in ' \\t'"), ("combo == 12", "x not in ' \\t'")], timeout={"quick": 240, "thorough": 900}),
     H(names_channel, timeout={"quick": 240, "thorough": 900}),
 ]
 
@@ -550,6 +571,7 @@ def selftest():
     R = ref_http
     ok = "GET /b HTTP/1.1\r\n\r\n"
     r2 = ("GET", "/b", "HTTP/1.1", [], "")
+    R = lambda x: ref_http(x)[:3]   # noqa
     assert R(ok) == ([r2], "<R1>", False)
     assert R("POST / HTTP/1.1\r\nContent-Length: 3\r\n\r\nabc" + ok) == (
         [("POST", "/", "HTTP/1.1", [("content-length", "3")], "abc"), r2], "<R1><R2>", False)
